@@ -3,7 +3,7 @@ import itertools
 import re
 
 import panics
-from mirq import callee, fmt_origin, origin_calls, origin_fields
+from mirq import callee, fmt_origin, origin_calls, origin_fields, strip_refs
 
 EXPLANATION = (
     "R16.1 panic-site inventory of GameVersion::from_str, Display, cmp, eq, partial_cmp and the two wire helpers "
@@ -25,6 +25,7 @@ def run(ctx, rep):
     cmp_table(ctx, rep)
     eq_keys(ctx, rep)
     normalise(ctx, rep)
+    display_shape(ctx, rep)
     roots = ["<%s as core::str::traits::FromStr>::from_str" % GV, "<%s as core::fmt::Display>::fmt" % GV, "<%s as core::cmp::Ord>::cmp" % GV,
              "<%s as core::cmp::PartialEq>::eq" % GV, "<%s as core::cmp::PartialOrd>::partial_cmp" % GV,
              "insim::insim::ver::parse_game_version", "insim::insim::ver::write_game_version"]
@@ -139,6 +140,59 @@ def eq_keys(ctx, rep):
     rows = b.decision_rows()
     falses = [r for r in rows if r[1][1] == "use" and r[1][2] == ("0",)]
     rep.check("R16.2", "eq:conjunction", len(falses) == 2 and len(rows) == 3, "eq must be the conjunction of the three tests (rows %d)" % len(rows), b.loc(), nontrivial=False)
+
+
+def display_shape(ctx, rep):
+    """R16.4: Display prints exactly what the parser reads back: on every path the formatted operands are number, letter and
+    (when present) revision, in that order, each through its `Display` impl with default options and with no literal text in
+    between.  The parser accepts `digits/dot` then one ASCII letter then digits only, and f32's Display never uses an exponent
+    (its Debug/LowerExp forms do), so any other formatting trait, option or separator makes some printed version unparseable."""
+    import ast
+    b = ctx.mir.body("<%s as core::fmt::Display>::fmt" % GV)
+    if b is None:
+        rep.fail("R16.4", "found", "Display::fmt for GameVersion not found")
+        return
+    rep.fn("<%s as core::fmt::Display>::fmt" % GV)
+    ctors = b.calls_to(r"core::fmt::rt::Argument::<'_>::new_\w+$")
+    bad = sorted({callee(t)[0].split("::")[-1] for _bb, t in ctors if not callee(t)[0].endswith("::new_display")})
+    rep.check("R16.4", "display-trait-only", bool(ctors) and not bad,
+              "GameVersion's Display formats a component with %s; only the Display form of number/letter/revision is read back by from_str (f32 Debug/exp forms print 1e-5, 1e16)" % (bad or "no recognised formatter"),
+              b.loc(), sample={"constructors": sorted({callee(t)[0].split("::")[-1] for _bb, t in ctors})})
+    # templates: default placeholders only
+    tmpl_ok = True
+    seen = []
+    for bb, t in b.calls_to(r"core::fmt::Arguments::<'a>::new\w*$"):
+        o = b.origin(t["args"][0])
+        x = o
+        while x[0] in ("ref", "deref"):
+            x = x[1]
+        raw = None
+        if x[0] == "const" and isinstance(x[2], str) and x[2].startswith("b\""):
+            try:
+                raw = ast.literal_eval(x[2])
+            except Exception:
+                raw = None
+        seen.append(x[2] if x[0] == "const" else fmt_origin(x))
+        if raw is None or any(c not in (0xC0, 0x00) for c in raw):
+            tmpl_ok = False
+    others = [callee(t)[0] for _bb, t in b.calls() if re.search(r"Formatter::<'a>::(write_str|write_char|pad\w*|debug_\w+)$", callee(t)[0] or "")]
+    rep.check("R16.4", "no-literal-text-or-options", tmpl_ok and bool(seen) and not others,
+              "GameVersion's Display must print its components back to back with default formatting (templates %s, other writes %s)" % (seen, others), b.loc(),
+              sample={"templates": seen})
+    # order of operands per path
+
+    def classify(kind, bb, idx, node):
+        if kind == "term" and node["k"] == "call" and re.search(r"fmt::rt::Argument::<'_>::new_\w+$", callee(node)[0] or ""):
+            o = strip_refs(b.origin(node["args"][0]))
+            while o[0] in ("field", "downcast", "deref", "ref") and not (o[0] == "field" and o[3] in ("major", "minor", "patch")):
+                o = o[1]
+            return o[3] if o[0] == "field" else "?"
+        return None
+    seqs = b.event_paths(classify)
+    want = {("major", "minor", "patch"), ("major", "minor")}
+    got = {tuple(e for e in s_ if isinstance(e, str)) for s_ in seqs}
+    got.discard(())
+    rep.check("R16.4", "component-order", got == want, "Display must print number, letter, revision-if-any in that order (paths print %s)" % sorted(got), b.loc(), sample={"paths": sorted(got)})
 
 
 def normalise(ctx, rep):
